@@ -87,8 +87,10 @@ pub const FAMILIES: [&str; 22] = [
 ];
 // (the second line: values on either side of powers of f64::EPSILON - 4.9e-32, 2.2e-16, 1.49e-8, 6.06e-6, 1.22e-4 - where a
 // guard written on h^2, h^3 or sqrt(h) instead of |h| would sit)
-pub const PITCHES: [f64; 45] = [0.0, 5e-324, -5e-324, 1e-310, -1e-310, 1e-300, 1e-17, -1e-17, 1e-16, 2.2e-16, -2.2e-16, 1e-15, 1e-12, 1e-9, 1e-6, 1e-4, 1e-3, 1e-2, 0.1, -0.1, 0.5, 1.0, -1.0, 3.0, 10.0, 100.0, -100.0,
-    4e-32, 6e-32, 1e-31, 2e-9, 5e-9, -5e-9, 1e-8, 1.4e-8, -1.4e-8, 1.6e-8, 3e-8, 1e-7, 5e-6, 7e-6, -7e-6, 1e-5, 1.1e-4, 1.3e-4];
+pub const PITCHES: [f64; 59] = [0.0, 5e-324, -5e-324, 1e-310, -1e-310, 1e-300, 1e-17, -1e-17, 1e-16, 2.2e-16, -2.2e-16, 1e-15, 1e-12, 1e-9, 1e-6, 1e-4, 1e-3, 1e-2, 0.1, -0.1, 0.5, 1.0, -1.0, 3.0, 10.0, 100.0, -100.0,
+    4e-32, 6e-32, 1e-31, 2e-9, 5e-9, -5e-9, 1e-8, 1.4e-8, -1.4e-8, 1.6e-8, 3e-8, 1e-7, 5e-6, 7e-6, -7e-6, 1e-5, 1.1e-4, 1.3e-4,
+    // normal numbers far below 1e-17, around sqrt / cbrt of f64::MIN_POSITIVE (round 10)
+    1.4e-154, 1.5e-154, -1.5e-154, 2e-154, -2e-154, 3e-154, 1e-153, -1e-153, 1e-152, 3e-103, 1e-100, 1e-60, 1e-30, -1e-20];
 
 /// n points (n >= 2) of the given family, all with r in [0.05, 0.25], |z| <= 1.3.
 pub fn family(rng: &mut Rng, fam: usize, n: usize) -> Vec<SpacePoint> {
@@ -100,6 +102,8 @@ pub fn family(rng: &mut Rng, fam: usize, n: usize) -> Vec<SpacePoint> {
             let rad = rng.range(0.1, 3.0);
             let a = rng.range(-PI, PI);
             let d = rad + rng.range(-0.02, 0.02);
+            // a z spread far below 1e-17 m is only representable around z = 0
+            let z0 = if h.abs() < 1e-17 && rng.bool() { 0.0 } else { z0 };
             let p = [d * a.cos(), d * a.sin(), z0, rad, rng.range(-PI, PI), h];
             // keep parameters t whose point is inside the allowed radial range
             let mut ts = Vec::new();
